@@ -306,6 +306,12 @@ func c01Exec(es []*twig.Engine, o c01Op, poisonSeed int64) (res string, out stri
 		} else if ld := c01Loaders[e]; ld != nil {
 			ld.files[c01Name(o.N)] = o.Src
 		}
+	case "addcallback":
+		// this engine (and no other) gets a filter that shadows a built-in one, a function and a test of its own
+		tag := "ovr" + strconv.Itoa(o.E)
+		e.AddFilter("upper", func(v interface{}, _ ...interface{}) (interface{}, error) { return tag, nil })
+		e.AddFunction("c01fn", func(_ ...interface{}) (interface{}, error) { return "fn" + tag, nil })
+		e.AddTest("c01t", func(v interface{}, _ ...interface{}) (bool, error) { return true, nil })
 	case "flood":
 		// another engine renders another template: enough distinct (type, attribute) pairs to roll the
 		// process-wide attribute cache over
@@ -322,7 +328,7 @@ func c01Exec(es []*twig.Engine, o c01Op, poisonSeed int64) (res string, out stri
 }
 
 func c01IsConfig(o c01Op) bool {
-	return o.Kind == "register" || o.Kind == "togglecache" || o.Kind == "alias" || o.Kind == "handle" || o.Kind == "store"
+	return o.Kind == "register" || o.Kind == "togglecache" || o.Kind == "alias" || o.Kind == "handle" || o.Kind == "store" || o.Kind == "addcallback"
 }
 
 // handles kept by the caller, per engine and name
@@ -665,6 +671,7 @@ func runC01(cases string, res *Result) {
 	res.Notes = append(res.Notes, fmt.Sprintf("pools known to the hooks: %d", len(twig.VerifPoolNames())))
 	idx := 0
 	strictDiffs, strictRuns, fresh := 0, 0, 0
+	c01ManyNames(res)
 	readCases(cases, func(c Case) {
 		if c.str("k") == "probes" {
 			runC01Probes(c, res, dir)
@@ -797,3 +804,61 @@ func runC01(cases string, res *Result) {
 }
 
 func h2(h *c01Hist) *c01Hist { return h }
+
+// c01ManyNames: an engine that has seen more than a thousand names (registered and loaded) still renders every one
+// of them, and what they extend, include and import, as an engine that holds only those templates would.
+func c01ManyNames(res *Result) {
+	c := Case{"stream": "many-names"}
+	res.Hist["stream:many-names"]++
+	fail := func(where, want, got string) {
+		res.add(Finding{Kind: "oracle", Where: "many-names/" + where, Case: c, Expected: want, Observed: got,
+			Detail: "history: layout, footer and lib registered from strings, then 1300 pages served by a loader rendered one after the other, then 1300 more names registered from strings"})
+	}
+	render := func(e *twig.Engine, name string) string {
+		out, err := e.Render(name, map[string]interface{}{"v": "V"})
+		if err != nil {
+			return "error: " + c01First(err.Error())
+		}
+		return out
+	}
+	eng := twig.New()
+	eng.RegisterString("layout", "<{% block body %}default{% endblock %}|{% include 'footer' %}>")
+	eng.RegisterString("footer", "foot{{ v }}")
+	eng.RegisterString("lib", "{% macro m(x) %}[{{ x }}]{% endmacro %}")
+	pages := map[string]string{}
+	for i := 0; i < 1300; i++ {
+		pages[fmt.Sprintf("page_%04d", i)] = fmt.Sprintf("{%% extends 'layout' %%}{%% block body %%}{%% import 'lib' as L %%}p%d{{ L.m(v) }}{%% endblock %%}", i)
+	}
+	eng.RegisterLoader(twig.NewArrayLoader(pages))
+	for i := 0; i < 1300; i++ {
+		res.Evaluations++
+		name := fmt.Sprintf("page_%04d", i)
+		want := fmt.Sprintf("<p%d[V]|footV>", i)
+		if got := render(eng, name); got != want {
+			fail("page "+name+" (the "+strconv.Itoa(i+1)+"th name of the engine)", want, got)
+			return
+		}
+	}
+	for _, name := range []string{"layout", "footer", "page_0000", "page_0999", "page_1299"} {
+		res.Evaluations++
+		want := map[string]string{"layout": "<default|footV>", "footer": "footV", "page_0000": "<p0[V]|footV>", "page_0999": "<p999[V]|footV>", "page_1299": "<p1299[V]|footV>"}[name]
+		if got := render(eng, name); got != want {
+			fail("again "+name, want, got)
+			return
+		}
+	}
+	e2 := twig.New()
+	for i := 0; i < 1300; i++ {
+		if err := e2.RegisterString(fmt.Sprintf("s_%04d", i), fmt.Sprintf("s%d{{ v }}", i)); err != nil {
+			fail("RegisterString", "no error", err.Error())
+			return
+		}
+	}
+	for _, i := range []int{0, 1, 99, 100, 650, 1299} {
+		res.Evaluations++
+		if got, want := render(e2, fmt.Sprintf("s_%04d", i)), fmt.Sprintf("s%dV", i); got != want {
+			fail(fmt.Sprintf("registered name s_%04d after 1300 registrations", i), want, got)
+			return
+		}
+	}
+}
